@@ -431,6 +431,151 @@ def paired_case(ctx, case):
             return
 
 
+def signed_literal_case(ctx, case):
+    """case = (ops, position of the signed literal, its spelling): `a op1 -2 op2 c` - a literal with a sign is ONE
+    operand, it neither captures nor releases its neighbours"""
+    ops, pos, spelling = case
+    n = len(ops) + 1
+    names = NAMES[:n]
+    flat, toks = [], []
+    for k in range(n):
+        flat.append(names[k])
+        toks.append(spelling if k == pos else names[k])
+        if k < n - 1:
+            flat.append(ops[k])
+            toks.append(ops[k])
+    expected = exprparse.parse_tokens(flat)
+    others = [t for t in all_trees(names, list(ops)) if t != expected]
+    lit_val = int(spelling)
+    ctx.count()
+    chosen = []
+    for vals in itertools.product(_GRID, repeat=n - 1):
+        env = dict(zip([nm for k, nm in enumerate(names) if k != pos], vals))
+        env[names[pos]] = lit_val
+        try:
+            ev = eval_tree(expected, env)
+        except OutOfDomain:
+            continue
+        sep = False
+        for o in others:
+            try:
+                if eval_tree(o, env) != ev:
+                    sep = True
+            except OutOfDomain:
+                pass
+        if sep:
+            chosen.append((env, ev))
+        if len(chosen) >= 4:
+            break
+    if not chosen:
+        ctx.discard("no-separating-input (all groupings agree)")
+        return
+    src = layouts(embed("ret", toks), 0)
+    c = adapter.compile_src(src)
+    if not c.ok:
+        ctx.fail("value|rejected|" + c.why()[:80], "well-formed chain with a signed literal rejected: %r: %s" % (src, c.why()), case)
+        return
+    program = adapter.link([c.ir])
+    ctx.nontrivial(src)
+    ctx.label("value-ctx:signed-literal")
+    for env, ev in chosen:
+        args = {k: env.get(k, 0) for k in ("a", "b", "c", "d")}
+        ran = adapter.invoke(adapter.new_vm(program), "f", args, budget=100000)
+        if not ran.ok:
+            ctx.fail("value|vm-exception|" + (adapter.exc_sig(ran.exc) if ran.exc else "diverged"), "%r with %r: VM failed %r" % (src, args, ran.exc), case)
+            return
+        if ran.value != ev:
+            ctx.fail("value|wrong-value|ctx=signed-literal", "%r with %r: VM returned %r, the declared grouping (literal %s as one operand) gives %r" % (
+                src, args, ran.value, spelling, ev), case)
+            return
+
+
+def float_chain_case(ctx, case):
+    """case = (ops over + - * /, optimise?): float operands, exact comparison with the declared grouping -
+    regrouping a float chain changes the last bit"""
+    ops, opt = case
+    n = len(ops) + 1
+    names = NAMES[:n]
+    flat = []
+    for k in range(n):
+        flat.append(names[k])
+        if k < n - 1:
+            flat.append(ops[k])
+    expected = exprparse.parse_tokens(flat)
+
+    def ev(t, env):
+        if isinstance(t, str):
+            return env[t]
+        x, y = ev(t[1], env), ev(t[2], env)
+        return {"+": x + y, "-": x - y, "*": x * y, "/": x / y}[t[0]]
+
+    src = "export function f ( float a , float b , float c , float d ) -> float { return %s ; }\n" % " ".join(flat)
+    ctx.count()
+    c = adapter.compile_src(src, optimize=opt)
+    if not c.ok:
+        ctx.fail("value|rejected|" + c.why()[:80], "well-formed float chain rejected: %r: %s" % (src, c.why()), case)
+        return
+    program = adapter.link([c.ir])
+    ctx.label("value-ctx:float-chain:opt=%d" % opt)
+    ctx.nontrivial((src, opt))
+    for vals in ((1.0, 3.0, 11.0, 7.0), (0.1, 0.7, 0.3, 1.3), (1e300, 1e200, 1e200, 1e-100), (5.0, 49.0, 0.3, 3.0)):
+        env = dict(zip(("a", "b", "c", "d"), vals))
+        try:
+            want = ev(expected, env)
+        except (ZeroDivisionError, OverflowError):
+            continue
+        ran = adapter.invoke(adapter.new_vm(program), "f", dict(env), budget=10000)
+        if not ran.ok:
+            ctx.fail("value|vm-exception|" + (adapter.exc_sig(ran.exc) if ran.exc else "diverged"), "%r with %r: VM failed %r" % (src, env, ran.exc), case)
+            return
+        if ran.value != want:
+            ctx.fail("value|wrong-value|ctx=float-chain", "%r (optimize=%s) with %r: VM returned %r, the declared grouping %s gives %r" % (
+                src, opt, env, ran.value, exprparse.show(expected), want), case)
+            return
+
+
+def wasm_chain_case(ctx, case):
+    """operator chains inside the wasm backend's subset, executed by a wasm engine"""
+    from .. import wasmeng
+    ops = case
+    n = len(ops) + 1
+    names = NAMES[:n]
+    flat = []
+    for k in range(n):
+        flat.append(names[k])
+        if k < n - 1:
+            flat.append(ops[k])
+    expected = exprparse.parse_tokens(flat)
+    others = [t for t in all_trees(names, list(ops)) if t != expected]
+    inputs, _ = separating_inputs(expected, others, names)
+    ctx.count()
+    if not inputs:
+        ctx.discard("no-separating-input (all groupings agree)")
+        return
+    src = layouts(embed("ret", flat), 0)
+    c = adapter.compile_src(src, wasm=True)
+    if not c.ok:
+        ctx.discard("refused-by-the-wasm-backend")
+        return
+    try:
+        data = adapter.wasm_bytes(c.result)
+        inst = wasmeng.Instance(data)
+    except Exception:
+        ctx.discard("no-valid-wasm-module")   # validity is C07's concern
+        return
+    ctx.label("value-ctx:wasm")
+    ctx.nontrivial(src)
+    for env, ev in inputs:
+        args = [env.get(k, 0) for k in ("a", "b", "c", "d")]
+        kind, got = inst.call("f", args)
+        if kind != "ok":
+            continue
+        if got != ev:
+            ctx.fail("value|wrong-value|ctx=wasm", "%r with %r: the wasm module returns %r, the declared grouping %s gives %r" % (
+                src, env, got, exprparse.show(expected), ev), case)
+            return
+
+
 def vector_chain_items():
     """terms `vec (* | /) scalar ...` joined by + / -; one or two terms"""
     items = []
@@ -518,7 +663,7 @@ def vector_chain_case(ctx, case):
 # -- generated long chains ------------------------------------------------------------
 
 _OPERAND = st.sampled_from([
-    ["a"], ["b"], ["c"], ["d"], ["1"], ["2"], ["7"], ["0x10"], ["010"], ["2.5"], ["1e1"], [".5"],
+    ["a"], ["b"], ["c"], ["d"], ["1"], ["2"], ["7"], ["-2"], ["-7"], ["+3"], ["-1"], ["0x10"], ["010"], ["2.5"], ["1e1"], [".5"],
     ["g", "(", "a", ")"], ["g", "(", "a", "+", "b", ")"], ["t", "[", "0", "]"], ["t", "[", "a", "*", "b", "]"],
     ["s", ".", "x"], ["v", ".", "xy"], ["t", "[", "1", "]", ".", "y"], ["g", "(", "b", "<", "c", ")"],
 ])
@@ -611,6 +756,15 @@ def run(R):
                                         for pat in paren_patterns(n + 1)[1:] for pf in (False, True)][::(5 if R.quick else 1)], paired_case,
            exhaustive=not R.quick)
     R.enum("vector-chain-value", vector_chain_items, vector_chain_case)
+    R.enum("signed-literal-value", lambda: [(ops, pos, sp) for n_ in (2, 3) for ops in itertools.product(OPS, repeat=n_)
+                                            for pos in range(n_ + 1) for sp in ("-2", "+3")][::(4 if R.quick else 1)], signed_literal_case,
+           exhaustive=not R.quick)
+    R.enum("float-chain-value", lambda: [(ops, o) for n_ in (2, 3) for ops in itertools.product("+-*/", repeat=n_) for o in (False, True)],
+           float_chain_case)
+    WOPS = ["+", "-", "*", "/", "==", "<", ">"]
+    R.enum("wasm-chain-value", lambda: [ops for n_ in (2, 3) for ops in itertools.product(WOPS, repeat=n_)], wasm_chain_case)
+    for l in ("value-ctx:signed-literal", "value-ctx:float-chain:opt=1", "value-ctx:wasm"):
+        R.require(l)
     R.require("value-ctx:paired-groupings")
     R.require("value-ctx:vector-chain")
     R.require("chain-len:>=30-operands")
